@@ -137,6 +137,9 @@ def hasDetails (s : Airplanes P D) (k : Nat) : Bool :=
 def allPosition (s : Airplanes P D) : List (Nat × P) :=
   s.filterMap (fun kv => kv.2.coords.pos.map (fun p => (kv.1, p)))
 
+/-- `impl Display for Airplanes`: one line per aircraft that has details, in key order; the addresses of those lines -/
+def displayKeys (s : Airplanes P D) : List Nat := (s.filter (fun kv => hasDetails s kv.1)).map (·.1)
+
 end
 /-- `incr_messages`: the message counter in `u32` arithmetic as written today (`saturating_add(1)`). The tracker model above counts in `Nat`;
 the two agree while fewer than 2^32 − 1 frames have been counted for the record (`count_agrees_below` in `Theorems/C01`), beyond that the
